@@ -5,13 +5,13 @@ package main
 // Component "untrusted" (property C19, untrusted-peer side): a REAL UntrustedNode (real constructor,
 // real Run with its monitorIncoming / monitorRequestTimeouts / sendOutgoing goroutines and its phased
 // shutdown, real Stop) connected over loopback TCP to a scripted peer that, after the version
-// exchange, NEVER READS again and keeps sending pings.  The listener's receive buffer is made small,
-// so a few thousand pongs fill the socket: sendOutgoing blocks in the socket write, the 100-slot
-// outgoing queue fills, monitorIncoming blocks inside MessageChannel.Add holding the mutex.
+// exchange, NEVER READS again and sends tx inventories that the node answers with getdata requests:
+// a few large ones fill the socket so that sendOutgoing blocks in the write, then small ones fill the
+// 100-slot outgoing queue until monitorIncoming blocks inside MessageChannel.Add holding the mutex.
 //
 // ops                 observation
 //  ustart             [0, connected, versionSeen]
-//  ufill              [0, full]            pings until the outgoing queue is full and stays full
+//  ufill              [0, full]            inventories until the outgoing queue is full and stays full
 //  ureset             [0]                  the peer resets the connection (RST): the blocked write fails
 //  ustop b            [0, returned]        UntrustedNode.Stop (what monitorUntrustedNodes does at shutdown); Run returns within b ms
 //  ucounts            [0, incoming, processing]
@@ -20,7 +20,6 @@ package main
 import (
 	"context"
 	"net"
-	"sync/atomic"
 	"syscall"
 	"time"
 
@@ -64,6 +63,7 @@ func runUntrusted(c *Case) ([]Obs, any) {
 	var runDone chan struct{}
 	var conn net.Conn
 	extra := map[string]any{}
+	invSeq := int64(0)
 
 	var out []Obs
 	for _, raw := range c.Ops {
@@ -92,33 +92,100 @@ func runUntrusted(c *Case) ([]Obs, any) {
 				wire.WriteMessageN(conn, wire.NewMsgVersion(me, me, 7, 0), wire.ProtocolVersion, btcnet)
 				return Obs{OK, 1, b2i(err == nil && isVersion)}
 			case "ufill":
-				// The pings are written by their own goroutine WITHOUT a deadline: a write that blocks (the
-				// node's reader is slow, or blocked as intended) simply resumes or stays blocked - a write
-				// cut off by a deadline would leave half a message in the stream and the node would drop
-				// the connection for a framing error.  The goroutine ends when the connection is closed.
-				var sent, stopFill int64
+				// 1. the node verifies this peer (a headers message starting at a block it knows), so that it
+				//    answers tx inventories with getdata requests;
+				// 2. large inventories (50000 ids -> 1.8 MB getdata each) until sendOutgoing is stuck in the
+				//    socket write (this peer never reads): a few messages instead of hundreds of thousands;
+				// 3. small inventories until the 100-slot queue is full and monitorIncoming waits inside Add.
+				// All writes come from one goroutine WITHOUT a deadline: a write that blocks stays blocked or
+				// resumes; it is never cut off in the middle of a message.  It ends when the connection closes.
+				tFill := time.Now()
+				var tBig time.Duration
 				cn := conn
+				msgs := make(chan wire.Message, 1000)
 				go func() {
-					for atomic.LoadInt64(&stopFill) == 0 {
-						if _, err := wire.WriteMessageN(cn, wire.NewMsgPing(uint64(atomic.LoadInt64(&sent))), wire.ProtocolVersion, btcnet); err != nil {
+					for m := range msgs {
+						if _, err := wire.WriteMessageN(cn, m, wire.ProtocolVersion, btcnet); err != nil {
 							return
 						}
-						atomic.AddInt64(&sent, 1)
 					}
 				}()
+				defer close(msgs)
+				hdrs := wire.NewMsgHeaders()
+				g, _ := bu.Known(0)
+				hdrs.AddBlockHeader(g)
+				msgs <- hdrs
+				if !waitFor(func() bool { return un.IsReady() }, 5*time.Second) {
+					return Obs{OK, 0}
+				}
+				mkInv := func(n int) *wire.MsgInv {
+					inv := wire.NewMsgInvSizeHint(uint(n))
+					for i := 0; i < n; i++ {
+						invSeq++
+						h := pseudo("utx", invSeq)
+						inv.AddInvVect(wire.NewInvVect(wire.InvTypeTx, &h))
+					}
+					return inv
+				}
+				stuck := func(d time.Duration) bool { // the queue is not empty and does not move for d
+					n0, _ := un.VerifOutgoingFill()
+					if n0 == 0 {
+						return false
+					}
+					t0 := time.Now()
+					for time.Since(t0) < d {
+						time.Sleep(10 * time.Millisecond)
+						if n, _ := un.VerifOutgoingFill(); n != n0 {
+							return false
+						}
+					}
+					return true
+				}
+				big, rounds := 0, 0
 				full := false
-				deadline := time.Now().Add(90 * time.Second)
-				for time.Now().Before(deadline) && !full {
-					time.Sleep(20 * time.Millisecond)
-					n, cp := un.VerifOutgoingFill()
-					if n == cp && cp > 0 {
-						time.Sleep(150 * time.Millisecond)
-						n, cp = un.VerifOutgoingFill()
-						full = n == cp
+				for ; rounds < 12 && !full; rounds++ {
+					// the sender must be stuck in the write (not just slow): large inventories until the queue
+					// stops moving
+					for k := 0; k < 30; k++ {
+						msgs <- mkInv(50000)
+						big++
+						waitFor(func() bool { n, _ := un.VerifOutgoingFill(); return n > 0 }, 250*time.Millisecond)
+						if stuck(250 * time.Millisecond) {
+							break
+						}
+					}
+					for i := 0; i < 160 && !full; i++ {
+						msgs <- mkInv(1)
+						if i >= 90 {
+							n, cp := un.VerifOutgoingFill()
+							if n == cp && cp > 0 {
+								time.Sleep(150 * time.Millisecond)
+								n, cp = un.VerifOutgoingFill()
+								full = n == cp
+							} else {
+								time.Sleep(5 * time.Millisecond)
+							}
+						}
+					}
+					if !full {
+						// the queue may still fill once monitorIncoming has worked through what was sent
+						full = waitFor(func() bool { n, cp := un.VerifOutgoingFill(); return n == cp && cp > 0 }, 500*time.Millisecond) &&
+							stuck(150*time.Millisecond)
+						if n, cp := un.VerifOutgoingFill(); full && n != cp {
+							full = false
+						}
 					}
 				}
-				atomic.StoreInt64(&stopFill, 1)
-				extra["pings"] = atomic.LoadInt64(&sent)
+				tBig = 0
+				extra["rounds"] = rounds
+				if !full {
+					n, cp := un.VerifOutgoingFill()
+					in, pr := un.VerifCounts()
+					extra["diag"] = []int64{int64(n), int64(cp), in, pr, b2i(un.IsActive()), b2i(un.IsReady())}
+				}
+				extra["big_invs"] = big
+				extra["fill_ms"] = time.Since(tFill).Milliseconds()
+				extra["big_ms"] = tBig.Milliseconds()
 				return Obs{OK, b2i(full)}
 			case "ureset":
 				if tc, ok := conn.(*net.TCPConn); ok {
